@@ -112,18 +112,31 @@ class Run:
     def run_fidelity(self, harness, f):
         """state-set comparison implementation-shaped model vs real code (information, never a verdict)"""
         out = self.tlc(f["spec"] + ".tla", f["cfg"], workers=1, xmx="4g", timeout=600)
-        model = set()
+        model, medges = set(), set()
         for line in out.splitlines():
             if line.startswith('"S|'):
                 model.add(self._norm(line[3:-1].replace('\\"', '"')))
+            elif line.startswith('"E|'):
+                t = self._norm(line[3:-1].replace('\\"', '"'))
+                if '"Put"' in t or '"Remove"' in t:
+                    medges.add(t)
         p = sh([harness, "canon", "-kind", f["arg"]], timeout=600)
-        code = set(self._norm(l) for l in p.stdout.splitlines() if l.strip())
+        code, cedges = set(), set()
+        for l in p.stdout.splitlines():
+            if l.startswith("E|"):
+                cedges.add(self._norm(l[2:]))
+            elif l.strip():
+                code.add(self._norm(l))
         r = {"model": f["spec"] + "/" + f["cfg"], "universe": f["arg"], "model_states": len(model), "code_states": len(code),
-             "identical": model == code and len(model) > 0}
+             "model_edges": len(medges), "code_edges": len(cedges),
+             "identical": model == code and len(model) > 0 and medges == cedges}
         if not r["identical"]:
             r["only_in_model"] = sorted(model - code)[:3]
             r["only_in_code"] = sorted(code - model)[:3]
-        log("  FIDELITY %-10s %-16s model %6d  code %6d  %s" % (f["spec"], f["arg"], len(model), len(code),
+        if not r["identical"] and medges != cedges:
+            r["edges_only_in_model"] = sorted(medges - cedges)[:2]
+            r["edges_only_in_code"] = sorted(cedges - medges)[:2]
+        log("  FIDELITY %-10s %-16s model %6d states %6d edges  code %6d states %6d edges  %s" % (f["spec"], f["arg"], len(model), len(medges), len(code), len(cedges),
                                                                "identical" if r["identical"] else "MODEL DRIFT"))
         return r
 
